@@ -289,3 +289,15 @@
             }
         }
     }
+
+    // listed known finding: {% extends %} inside a set-block / filter block
+//# ob name=extends_inside_capture_native role=native_bounded fn=vm::eval_impl(LoadBlocks)+output::Output::end_capture kind=bounded bound="2 templates: {% extends %} written inside a set-block / inside a filter block of the child" stmt="a set-block captures exactly the text written inside it and a filter block filters exactly its body, also when the body contains an {% extends %} tag: the construct's own capture is the one it ends"
+    fn extends_inside_capture_native() {
+        use crate::Environment;
+        let mut env = Environment::new();
+        env.add_template("p", "P[{% block b %}{% endblock %}]").unwrap();
+        env.add_template("c1", "{% set x %}A{% extends 'p' %}{% endset %}{% block b %}[{{ x }}]{% endblock %}").unwrap();
+        let got = env.get_template("c1").unwrap().render(()).unwrap();
+        assert!(got == "P[[A]]", "set-block around extends: rendered {got:?}, the set-block captured \"A\"");
+    }
+
